@@ -325,6 +325,39 @@ fn grids(args: &Args, rep: &mut Report) {
             len = 1 + (len + 11) % 1439;
         }
     }
+    // 10. sizes: 1..40 entries in every kind of list (spans, rules with each separator, weekdays with
+    //     positions, dates, years, weeks), so that a threshold on a length is crossed one by one
+    let mut two_years: Vec<NaiveDate> = Vec::new();
+    {
+        let mut d = dates::ymd(2023, 12, 25);
+        while d <= dates::ymd(2026, 1, 7) {
+            two_years.push(d);
+            d = d.succ_opt().unwrap();
+        }
+    }
+    for k in 1..=40usize {
+        let disjoint: Vec<String> = (0..k).map(|i| format!("{}-{}", hm(i as u32 * 35), hm(i as u32 * 35 + 20))).collect();
+        one(disjoint.join(","), "size_spans", two_days.clone(), rep);
+        let overlapping: Vec<String> = (0..k).map(|i| format!("{}-{}", hm(i as u32 * 17 % 600), hm(700 + i as u32 * 29 % 1500))).collect();
+        one(format!("Mo,We,Sa {}", overlapping.join(",")), "size_spans", two_years[..30].to_vec(), rep);
+        for sep in ["; ", ", ", " || "] {
+            let rules: Vec<String> = (0..k).map(|i| format!("{} {}-{}{}", wds[i % 7], hm(300 + i as u32 * 13), hm(900 + i as u32 * 11), ["", " unknown", " off"][i % 3])).collect();
+            one(rules.join(sep), "size_rules", two_years[..45].to_vec(), rep);
+        }
+        let dates_list: Vec<String> = (0..k).map(|i| format!("{} {:02}", months[(i * 5) % 12], 1 + (i * 7) % 28)).collect();
+        one(dates_list.join(","), "size_dates", two_years.clone(), rep);
+        let years_list: Vec<String> = (0..k).map(|i| format!("{}", 2020 + 2 * i)).collect();
+        let ydays: Vec<NaiveDate> = (2019..=2102).flat_map(|y| [dates::ymd(y, 1, 1), dates::ymd(y, 12, 31), dates::ymd(y, 6, 15)]).collect();
+        one(years_list.join(","), "size_years", ydays, rep);
+        if k <= 27 {
+            let weeks_list: Vec<String> = (0..k).map(|i| format!("{:02}", 1 + 2 * i)).collect();
+            one(format!("week {}", weeks_list.join(",")), "size_weeks", two_years.clone(), rep);
+        }
+        if k <= 21 {
+            let wd_list: Vec<String> = (0..k).map(|i| format!("{}[{}]", wds[i % 7], [1, -1, 3][i / 7])).collect();
+            one(wd_list.join(","), "size_weekdays", two_years.clone(), rep);
+        }
+    }
     if args.worker == 0 {
         rep.add("grid_years_covered", years.len() as u64);
     }
